@@ -541,7 +541,7 @@ class Check(PropertyCheck):
         'object-dtype column',
         'astropy converts an angle between units by ONE multiplication with the ratio of the unit scales '
         '(Quantity.to_value); the model uses the exact ratio of the scales astropy reports, and wherever such a '
-        'conversion happened (a row whose angle unit differs from the unit of the first written row) the value is '
+        'conversion happened (an angle not given in degrees: the writer stores ROTANG in degrees) the value is '
         'compared to 1e-12 relative instead of exactly; same-unit values are compared exactly',
         'x/2 and 2x are exact in binary floating point (no under/overflow in the generated range)',
         'the regular polygon enters through its `vertices` attribute (computed by its constructor with float trig)',
@@ -773,16 +773,18 @@ class Check(PropertyCheck):
         return True
 
     @staticmethod
-    def _converted_rows(case):  # noqa: C901
-        """indices (among the written regions) whose ROTANG value astropy converts to the column unit."""
+    def _converted_rows(case):
+        """indices (among the written regions) whose ROTANG value astropy converts, and the column unit.
+        The writer stores every angle in degrees (F122 repaired), so these are the angles not given in degrees.
+        (C12_VARIANT=..,0 as fifth flag = the code before that repair: the column takes the first row's unit.)"""
         w = [s for s in case['regions'] if not s['sky'] and s['cls'] in REPRESENTABLE]
         if not w:
             return set(), None
         has = lambda s: s['cls'] in HAS_ANGLE
-        col = (w[0].get('aunit') or 'deg') if has(w[0]) else 'deg'
+        col = 'deg'
         v = os.environ.get('C12_VARIANT', '').split(',')
-        if len(v) == 5 and v[4].strip() == '1':      # testing aid: the F122-patched writer always writes degrees
-            col = 'deg'
+        if len(v) == 5 and v[4].strip() == '0':
+            col = (w[0].get('aunit') or 'deg') if has(w[0]) else 'deg'
         return {i for i, s in enumerate(w) if has(s) and (s.get('aunit') or 'deg') != col}, col
 
     def equal(self, case, real, model):
@@ -1079,8 +1081,9 @@ class Check(PropertyCheck):
         if any(c is not None for c in comps) and any(c is None for c in comps):
             tags.append('F121')
         conv, col = self._converted_rows(case)
-        if col is not None and not unit_info(col)['fits']:
-            tags.append('F122')
+        w = [s for s in case['regions'] if not s['sky'] and s['cls'] in REPRESENTABLE]
+        if w and w[0]['cls'] in HAS_ANGLE and not unit_info(w[0].get('aunit') or 'deg')['fits']:
+            tags.append('hourangle-first')
         if conv:
             tags.append('unitmix')
         skipped = len(case['regions']) - len(specs)
